@@ -9,6 +9,25 @@ use serde_json::{json, Value};
 
 /// judge one faulty execution against the fault-free one
 pub fn judge_fault(role: Role, base: &Outcome, o: &Outcome) -> Option<(&'static str, String)> {
+    // sessions: every constituent call is judged on its own - an Ok must carry the fault-free value
+    if !base.parts.is_empty() {
+        if let Err(e) = &o.result {
+            if e.starts_with("PANIC") {
+                return Some(("panic", format!("panics: {e}")));
+            }
+        }
+        for (i, (name, r)) in o.parts.iter().enumerate() {
+            if let Ok(v) = r {
+                match base.parts.get(i) {
+                    Some((bn, Ok(bv))) if bn == name && bv == v => {}
+                    other => {
+                        return Some(("ok-after-fault", format!("call '{name}' of the session returns Ok({}) but the fault-free session has {:?} there", v.chars().take(80).collect::<String>(), other.map(|x| x.1.as_ref().map(|s| s.chars().take(80).collect::<String>())))));
+                    }
+                }
+            }
+        }
+        return None;
+    }
     match &o.result {
         Err(e) if e.starts_with("PANIC") => Some(("panic", format!("panics: {e}"))),
         Err(_) => None,
